@@ -48,6 +48,9 @@ type Store struct {
 	events  atomic.Int64
 	pins    []string
 	pinFail func(nth int) error
+	ghosts  map[cid.Cid][]byte // bytes of removed blocks, for prefix views taken before the removal
+	removed map[cid.Cid]int    // cid -> number of distinct writes when the block was removed (absent = alive)
+	removes []cid.Cid          // every successful Remove in order
 }
 
 // Pins returns the recorded pin roots.
@@ -65,10 +68,19 @@ func (s *Store) SetPinFail(f func(nth int) error) {
 
 func NewStore() *Store {
 	return &Store{
-		blocks: map[cid.Cid][]byte{},
-		index:  map[cid.Cid]int{},
-		faults: map[cid.Cid]FaultKind{},
+		blocks:  map[cid.Cid][]byte{},
+		index:   map[cid.Cid]int{},
+		faults:  map[cid.Cid]FaultKind{},
+		ghosts:  map[cid.Cid][]byte{},
+		removed: map[cid.Cid]int{},
 	}
+}
+
+// Removes returns the blocks removed through the DAG service, in order.
+func (s *Store) Removes() []cid.Cid {
+	s.mu.Lock()
+	defer s.mu.Unlock()
+	return append([]cid.Cid(nil), s.removes...)
 }
 
 // API returns a CoreAPI over the whole store.
@@ -163,6 +175,8 @@ func (s *Store) putLocked(c cid.Cid, data []byte) {
 	if _, ok := s.blocks[c]; !ok {
 		s.index[c] = len(s.writes)
 		s.writes = append(s.writes, c)
+		delete(s.removed, c)
+		delete(s.ghosts, c)
 	}
 	s.blocks[c] = data
 }
@@ -271,6 +285,12 @@ func (d *dagSvc) Get(ctx context.Context, c cid.Cid) (format.Node, error) {
 	if ok && d.a.limit >= 0 && s.index[c] >= d.a.limit {
 		ok = false
 	}
+	if !ok && d.a.limit >= 0 {
+		// a block removed later is still there in a view of the store taken before its removal
+		if at, was := s.removed[c]; was && s.index[c] < d.a.limit && d.a.limit < at {
+			data, ok = s.ghosts[c], true
+		}
+	}
 	gate := s.gate
 	s.mu.Unlock()
 
@@ -312,8 +332,34 @@ func (d *dagSvc) GetMany(ctx context.Context, cs []cid.Cid) <-chan *format.NodeO
 	return out
 }
 
-func (d *dagSvc) Remove(context.Context, cid.Cid) error       { return errors.New("unsupported") }
-func (d *dagSvc) RemoveMany(context.Context, []cid.Cid) error { return errors.New("unsupported") }
+// Remove deletes a block the way a DAG service does (not found when it is not there).
+func (d *dagSvc) Remove(_ context.Context, c cid.Cid) error {
+	s := d.a.s
+	if d.a.limit >= 0 {
+		return errors.New("fakeipfs: read-only prefix view")
+	}
+	s.events.Add(1)
+	s.mu.Lock()
+	defer s.mu.Unlock()
+	data, ok := s.blocks[c]
+	if !ok {
+		return format.ErrNotFound{Cid: c}
+	}
+	delete(s.blocks, c)
+	s.ghosts[c] = data
+	s.removed[c] = len(s.writes)
+	s.removes = append(s.removes, c)
+	return nil
+}
+
+func (d *dagSvc) RemoveMany(ctx context.Context, cs []cid.Cid) error {
+	for _, c := range cs {
+		if err := d.Remove(ctx, c); err != nil {
+			return err
+		}
+	}
+	return nil
+}
 
 // rawNode is a minimal node for the raw codec.
 type rawNode struct {
